@@ -42,6 +42,7 @@ type S struct {
 	srv      *world.Server
 	srv2     *world.Server
 	prx      *tars.ServantProxy
+	prxs     []*tars.ServantProxy // all proxy objects for the servant (they share manager, adapters, pending table)
 	before   tars.VerifProxyState
 	after    tars.VerifProxyState
 	finished bool
@@ -95,7 +96,12 @@ func (s *S) Run(c *scen.Ctx) {
 	}
 	s.srv.OnAccept = func(sc *world.SrvConn) bool { return s.onAccept(c, sc) }
 	s.prx = world.Proxy(comm, "App.Srv.Obj@tcp -h 10.0.0.9 -p 1000 -t 3000")
-	s.before = tars.VerifState(s.prx)
+	s.prxs = []*tars.ServantProxy{s.prx}
+	for i := []int{0, 0, 1, 2}[simrt.Draw(4, "c09.proxies")]; i > 0; i-- {
+		s.prxs = append(s.prxs, world.Proxy(comm, "App.Srv.Obj@tcp -h 10.0.0.9 -p 1000 -t 3000"))
+	}
+	c.Describe("proxy_objects", len(s.prxs))
+	s.before = s.state()
 	s.ncallers = 1 + simrt.Draw(6, "c09.callers")
 	per := 1 + simrt.Draw(4, "c09.per")
 	c.Describe("faults", s.faults)
@@ -171,7 +177,7 @@ func (s *S) Run(c *scen.Ctx) {
 				s.mu.Unlock()
 				var rsp requestf.ResponsePacket
 				cl.t0 = simrt.Elapsed()
-				err := s.prx.TarsInvoke(ctx, 0, "echo", cl.payload, nil, nil, &rsp)
+				err := s.prxs[ci%len(s.prxs)].TarsInvoke(ctx, 0, "echo", cl.payload, nil, nil, &rsp)
 				s.mu.Lock()
 				cl.t1 = simrt.Elapsed()
 				cl.done, cl.err = true, err
@@ -193,9 +199,18 @@ func (s *S) Run(c *scen.Ctx) {
 	// idle for longer than the read time-out and the longest time-out in use
 	simrt.Sleep(s.readTO + ms(s.proxyTO) + ms(1700) + ms(500))
 	s.mu.Lock()
-	s.after = tars.VerifState(s.prx)
+	s.after = s.state()
 	s.finished = true
 	s.mu.Unlock()
+}
+
+// state sums the per-proxy counters; the pending table and invokeNum belong to the shared manager.
+func (s *S) state() tars.VerifProxyState {
+	st := tars.VerifState(s.prxs[0])
+	for _, p := range s.prxs[1:] {
+		st.QueueLen += tars.VerifState(p).QueueLen
+	}
+	return st
 }
 
 // srv2 is the restarted server (crash-restart fault).
